@@ -237,17 +237,21 @@ def gen_scn(r, k, forced=None):
 
 
 def gen_par(r, c):
-    """hill parameters of a later run: hillWidth or gaussianSigmas, hillWeight, newHillFrequency"""
+    """hill parameters of a later run: hillWidth or gaussianSigmas, hillWeight, newHillFrequency, gridsUpdateFrequency,
+    wellTempered on or off, biasTemperature"""
+    q = {"W": r.choice([0.125, 0.5, 1.0, 2.0]), "freq": r.choice([1, 1, 2, 3]), "gfreq": r.choice([1, 1, 2, 3, 4]),
+         "wt": c["wt"] if r.random() < 0.6 else not c["wt"], "bt": r.choice([300.0, 1000.0, 3000.0])}
     if r.random() < 0.3:
-        return {"sig_mode": True, "hw": 0.0, "sigmas": [v["w"] * r.choice([0.25, 0.5, 1.0, 1.5, 2.0]) for v in c["vars"]],
-                "W": r.choice([0.125, 0.5, 1.0, 2.0]), "freq": r.choice([1, 1, 2, 3])}
-    hw = r.choice([0.5, 1.0, 1.5, 2.0, 3.0, 4.0])
-    return {"sig_mode": False, "hw": hw, "sigmas": [v["w"] * hw / 2.0 for v in c["vars"]],
-            "W": r.choice([0.125, 0.5, 1.0, 2.0]), "freq": r.choice([1, 1, 2, 3])}
+        q.update({"sig_mode": True, "hw": 0.0, "sigmas": [v["w"] * r.choice([0.25, 0.5, 1.0, 1.5, 2.0]) for v in c["vars"]]})
+    else:
+        hw = r.choice([0.5, 1.0, 1.5, 2.0, 3.0, 4.0])
+        q.update({"sig_mode": False, "hw": hw, "sigmas": [v["w"] * hw / 2.0 for v in c["vars"]]})
+    return q
 
 
 def par0(c):
-    return {"sig_mode": c["sig_mode"], "hw": c["hw"], "sigmas": [v["sigma"] for v in c["vars"]], "W": c["W"], "freq": c["freq"]}
+    return {"sig_mode": c["sig_mode"], "hw": c["hw"], "sigmas": [v["sigma"] for v in c["vars"]], "W": c["W"], "freq": c["freq"],
+            "gfreq": c["gfreq"], "wt": c["wt"], "bt": c["bt"]}
 
 
 def step_events(c):
@@ -332,13 +336,13 @@ def config_text(c, geom=None, rebin=False, par=None):
         if c.get("pmf_keep"):
             L.append("  keepFreeEnergyFiles on")
         if c["gfreq_explicit"] or par is not None:
-            L.append("  gridsUpdateFrequency %d" % c["gfreq"])
+            L.append("  gridsUpdateFrequency %d" % q["gfreq"])
         if c["keep"]:
             L.append("  keepHills on")
         if rebin:
             L.append("  rebinGrids on")
-    if c["wt"]:
-        L += ["  wellTempered on", "  biasTemperature %r" % c["bt"]]
+    if q["wt"]:
+        L += ["  wellTempered on", "  biasTemperature %r" % q["bt"]]
     if c["stepzero"]:
         L.append("  stepZeroData on")
     if c.get("eb"):
@@ -474,7 +478,8 @@ def model_case(c, xs, dump=True):
             p.append("L")
             continue
         if e[0] == "reconf":
-            p += ["C"] + [V.hexf(t) for t in e[1]["sigmas"]] + [V.hexf(e[1]["hw"]), V.hexf(e[1]["W"]), str(e[1]["freq"])]
+            p += ["C"] + [V.hexf(t) for t in e[1]["sigmas"]] + [V.hexf(e[1]["hw"]), V.hexf(e[1]["W"]), str(e[1]["freq"]),
+                                                                str(e[1]["gfreq"]), "1" if e[1]["wt"] else "0", V.hexf(e[1]["bt"])]
             continue
         if e[0] == "pmf":
             p += ["P", V.hexf(PMF_TEMP)]
@@ -852,7 +857,7 @@ def oracle(c, impl, traj):
             for g in geomp:
                 idx = [i + [b] for i in idx for b in range(g[0])]
             Eb = [esum(c, [[g[1] + v["w"] * (0.5 + b)] for v, g, b in zip(c["vars"], geomp, ix)], tab) for ix in idx]
-            scale = (c["bt"] + PMF_TEMP) / c["bt"] if c["wt"] else 1.0
+            scale = (cur["bt"] + PMF_TEMP) / cur["bt"] if cur["wt"] else 1.0
             exp_ = [(max(Eb) - t) * scale for t in Eb]
             name = "c05p_%s%s.pmf" % (c["id"], (".%d" % st[n][0]) if c.get("pmf_keep") and n >= 0 else (".%d" % c["it0"] if c.get("pmf_keep") else ""))
             if k >= len(dumps) or dumps[k][1] is None or not vec_close(dumps[k][1], exp_) :
@@ -935,9 +940,9 @@ def oracle(c, impl, traj):
                     ebf = lam + (1 - lam) * ebf
                 facts["ebmeta_deposits"] += 1
                 wgt = cur["W"] * ebf
-            if c["wt"]:
+            if cur["wt"]:
                 vhere, _, ins = spec_bias(c, geom, x, tab, pend)
-                wgt = cur["W"] * (ebf * math.exp(-vhere / (c["bt"] * KB)))
+                wgt = cur["W"] * (ebf * math.exp(-vhere / (cur["bt"] * KB)))
                 if c["use_grids"] and not ins:
                     facts["wt_outside"] += 1
             h = (it, wgt, [list(t) for t in x], list(cur["sigmas"]))
@@ -953,9 +958,9 @@ def oracle(c, impl, traj):
                 misaligned = any(v["gper"] and not (g[1] <= xv[0] < g[2]) for v, g, xv in zip(c["vars"], geom, x))
                 eb_outside = bool(c.get("eb")) and any(not (0 <= ffloor((Fr(xv[0]) - Fr(v["lower"])) / Fr(v["w"])) < v["nx"])
                                                         for v, xv in zip(c["vars"], x))
-                if c["wt"] and hetero and close(seen[-1][1], cur["W"] * (ebf * math.exp(-spec_bias(c, geom, x, asconf[0], asconf[1])[0] / (c["bt"] * KB)))):
+                if cur["wt"] and hetero and close(seen[-1][1], cur["W"] * (ebf * math.exp(-spec_bias(c, geom, x, asconf[0], asconf[1])[0] / (cur["bt"] * KB)))):
                     sig = "widths:hills-evaluated-with-the-configured-width-not-their-own"
-                elif c.get("eb") and c["eb"]["equil"] > 0 and (c["it0"] > 0 or restarted) and not c["wt"] and \
+                elif c.get("eb") and c["eb"]["equil"] > 0 and (c["it0"] > 0 or restarted) and not cur["wt"] and \
                         any(close(seen[-1][1], cur["W"] * (lam_ + (1 - lam_) * ebf1))
                             for lam_ in [max(0.0, (c["eb"]["equil"] - k_) / float(c["eb"]["equil"])) for k_ in range(0, it + 1)]):
                     # the weight is the one of the ramp at another step than the absolute one
@@ -964,26 +969,26 @@ def oracle(c, impl, traj):
                     sig = "ebmeta:target-read-out-of-range"
                 elif c.get("eb") and seen[-1][1] != seen[-1][1]:
                     sig = "ebmeta:nan-weight-in-ramp"
-                elif c.get("eb") and not c["wt"]:
+                elif c.get("eb") and not cur["wt"]:
                     sig = "ebmeta:hill-weight"
-                elif c["wt"] and c["use_grids"] and misaligned:
+                elif cur["wt"] and c["use_grids"] and misaligned:
                     sig = "periodic:grid-not-aligned-with-wrapping-interval"
-                elif c["wt"] and c["use_grids"] and not ins:
+                elif cur["wt"] and c["use_grids"] and not ins:
                     sig = "wt:deposit-outside-grid-reads-out-of-range"
-                elif c["wt"] and c["use_grids"] and pend_before and esum(c, x, pend_before) != 0.0:
+                elif cur["wt"] and c["use_grids"] and pend_before and esum(c, x, pend_before) != 0.0:
                     sig = "wt:ignores-unprojected-hills"
-                elif c["wt"] and c["use_grids"] and any(v["expand"] for v in c["vars"]) and geom != geom0:
+                elif cur["wt"] and c["use_grids"] and any(v["expand"] for v in c["vars"]) and geom != geom0:
                     sig = "expand:bins-added-by-expansion-miss-earlier-hills"
                 else:
                     sig = "schedule:hill-weight"
                 return (sig, "step %d (it=%d): hill deposited at %s has weight %r, the property prescribes %r "
                         "(hillWeight %r%s)" % (n, it, x, seen[-1][1], wgt, cur["W"],
-                                               ", times exp(-V/kT) with V the bias at that point" if c["wt"] else ""), n), facts
+                                               ", times exp(-V/kT) with V the bias at that point" if cur["wt"] else ""), n), facts
             pend.append(h)
         elif traj and traj[0][0] == it and (n + 1 == len(st) or st[n + 1][0] != it):
             return ("schedule:extra-hill", "step %d (it=%d, relative %d%s): the module added the hill %s at a step that is not "
                     "eligible (newHillFrequency %d)" % (n, it, rel, ", repeated step" if cont else "", traj[0], cur["freq"]), n), facts
-        if c["use_grids"] and it % c["gfreq"] == 0:
+        if c["use_grids"] and it % cur["gfreq"] == 0:
             if pend:
                 facts["projections"] += 1
             tab += pend
@@ -1074,8 +1079,8 @@ def _var(lower=0.0, nx=8, w=1.0, sigma=1.0, expand=False, **kw):
     return v
 
 
-def _par(sigmas, hw=0.0, W=1.0, freq=1, sig_mode=False):
-    return {"sig_mode": sig_mode, "hw": hw, "sigmas": list(sigmas), "W": W, "freq": freq}
+def _par(sigmas, hw=0.0, W=1.0, freq=1, sig_mode=False, gfreq=1, wt=False, bt=300.0):
+    return {"sig_mode": sig_mode, "hw": hw, "sigmas": list(sigmas), "W": W, "freq": freq, "gfreq": gfreq, "wt": wt, "bt": bt}
 
 
 def _cfg(cid, vars_, events, **kw):
@@ -1151,6 +1156,9 @@ def witnesses():
         _cfg("w_reconf_sigmas", [_var(), _var(nx=4, w=2.0, sigma=2.0)], [[3.5, 4.5], [3.5, 4.5], [0.5, 1.0], ("reconf", _par([0.5, 3.0], sig_mode=True)),
                                                                  [0.5, 1.0], [-0.25, 1.0], [0.5, -0.5], [2.5, 3.0]], gfreq_explicit=True, gfreq=2),
         _cfg("w_reconf_rebin", [_var(nx=12)], [[5.5], [5.5], [6.5], ("reconf", _par([0.5], hw=1.0)), [6.5], [4.5], ("rebin", [(8, 2.5, 10.5)]), [4.5], [2.25], [10.75], [5.0]], keep=True),
+        # wellTempered switched on (biasTemperature 1000), then off again, and gridsUpdateFrequency 1 -> 3, between runs
+        _cfg("w_reconf_wt", [_var()], [[3.5], [3.5], [3.25], ("reconf", _par([1.0], hw=2.0, wt=True, bt=1000.0, gfreq=3)), [3.25], [3.5], [3.0], [-0.25],
+                                      ("reconf", _par([1.0], hw=2.0)), [-0.25], [3.5], [3.5]]),
         _cfg("w_reconf_expand", [_var(expand=True)], [[3.5], [3.5], [1.5], ("reconf", _par([0.5], hw=1.0)), [1.5], [0.25], [-0.25], [-1.5]]),
         # vector variables without grids
         _cfg("w_vec3", [_var(kind=1)], [[[1.0, 0.0, 0.5]], [[1.0, 0.25, 0.5]], [[0.5, 0.25, 0.5]], [[0.5, 0.5, 0.0]]], use_grids=False, wt=True),
